@@ -10,16 +10,18 @@ renders to, `caller` is an argument: a def gets the namespace handed over at its
 gets the `caller` of the scope it is written in), `Codegen/Attrs.lean` (`Tag._parse_attributes`,
 `CallNamespaceTag`, `get_argument_expressions`).  Helper lemmas: `Codegen/Calls*.lean`, `Codegen/AttrsLemmas*.lean`.
 
-`GoodAll ts` (`Codegen/Calls.lean`, decidable) is the guard of the refinement.  Covered: text, `${expr | filters}` with
-def calls by name, `capture(f, …)`, `caller.x(…)`, concatenations and calls as arguments of calls; `% if / for / while /
-try`, `loop`, `<%text filter>`, `return / break / continue`; **`<%def>`s – top-level and nested in other defs to any
-depth – with any combination of `buffered` / `filter=` / `decorator=`; `<%call>` with a body and body arguments,
-nested to any depth, in loops, in defs, in other call bodies; `caller.body(…)` evaluated any number of times.**
-NOT covered (named by the guard): `<%block>`, `<%include>`, `cached=`, `<%def>`s written inside a `<%call>` (for
-those the frame-level theorems of C13 hold and the behaviour is compared on every run), two defs of the same name
-in one scope, and the places where mako's generated code deviates from
-the specification – recorded findings, see the `…_counterexample` theorems: `<% return %>` inside a buffering def,
-`caller.x()` inside the argument list of a `<%call expr>`, `caller` inside a def nested in a `<%call>`.
+`GoodAll ts` (`Codegen/Calls.lean`, decidable) is the guard of the refinement.  Covered, at any nesting depth: text,
+`${expr | filters}` with def calls by name, `capture(f, …)`, `caller.x(…)`, concatenations and calls as arguments of
+calls; `% if / for / while / try`, `loop`, `<%text filter>`, `return / break / continue`; **`<%def>`s – top-level,
+nested in other defs, and written inside a `<%call>` (reached as `caller.name(…)` or by name from the call's content)
+– with any combination of `buffered` / `filter=` / `decorator=`; `<%call>` with a body and body arguments, in loops, in
+defs, in other call bodies; `caller.body(…)` evaluated any number of times.**  NOT covered (named by the guard):
+`<%block>`, `<%include>`, `cached=`, `<%def>`s under a control line or inside a *nested* `<%call>` of a `<%call>` body
+(mako exports those to the outer `caller` as well), two defs of the same name in one scope – for those the frame-level
+theorems of C13 hold and the behaviour is compared on every run – and the places where mako's generated code deviates
+from the specification, which are recorded findings (see the `…_counterexample` theorems): `<% return %>` inside a
+buffering def (F-C05-2), `caller.x()` inside the argument list of a `<%call expr>` (F-C05-1), `caller` used by a def
+written inside a `<%call>` whose enclosing scope already knows the name `caller` (F-C05-3: flag `cv` of the guard).
 
 All theorems quantify over every template set, every crash point `k`, every fuel and every start state related
 to the specification's arguments (`RelC` / `RelW`; true of the initial state, preserved by every execution).
@@ -60,47 +62,58 @@ example : GoodAll [(sampleCalls, none)] ∧
   subst hp
   decide
 
+/-- non-vacuous for defs written inside a `<%call>`: `d5` (filtered) is reached through `caller.d5('a')`, `d6` is called
+    with content from inside the call body and uses the caller of *its own* call -/
+example : GoodAll [(sampleNested, none)] ∧
+    (render (progOf [(sampleNested, none)] 99) ⟨none, false⟩ 200).2.1 = "{[2(na)|Bi:OWN]}".toList ∧
+    (Spec.render ⟨[(sampleNested, none)], 99⟩ ⟨none, false⟩ 200).2 = "{[2(na)|Bi:OWN]}".toList := by
+  refine ⟨?_, by decide +kernel, by decide +kernel⟩
+  intro p hp
+  simp only [List.mem_singleton] at hp
+  subst hp
+  decide
+
 /-- **Refinement, any construct in any scope**: the statements the generator emits for a guarded sub-template
     append to the buffer on top exactly what `Spec.snodes` returns, with the same outcome, counter and variables,
     and keep the locals that denote `caller`, the closures and the module. -/
 theorem def_call_refines_spec_construct_partial (ts : List (Tmpl × Option Bool)) (k : Nat) (hG : GoodAll ts)
-    (t : Tmpl) (sc : Scope) (inLoop buffering : Bool) (hg : Good sc inLoop buffering t = true)
-    (fuel : Nat) (l : Loc) (σ : St) (E : Spec.Env) (hR : RelC l σ E) (hn : σ.next = [])
+    (t : Tmpl) (sc : Scope) (inLoop buffering cv cb : Bool) (hg : Good sc inLoop buffering cv cb t = true)
+    (fuel : Nat) (l : Loc) (σ : St) (E : Spec.Env) (hR : RelC cv l σ E) (hn : σ.next = [])
     (hil : inLoop = true → E.loops ≠ []) (hl : LocOK l) (hσ : StOK σ) (i : Nat) (topc : Str)
     (rest : List (Nat × Str)) (hb : σ.bufs = (i, topc) :: rest) (hw : l.writer = i) (o : Outcome) (l' : Loc) (σ' : St)
     (he : exec (progOf ts k) fuel (stmts sc t) l σ = (o, l', σ')) (ho : o ≠ .timeout) :
     ∃ out vars', σ'.bufs = (i, topc ++ out) :: rest ∧
       (∃ m0, ∀ m, m0 ≤ m → Spec.snodes ⟨ts, k⟩ m t E σ.cnt = ⟨conv o, out, σ'.cnt, vars'⟩) ∧
       (∀ x, lookup x l'.vars = lookup x vars') ∧ Keep l l' :=
-  have h := (rc_all ts k hG fuel).stmt t sc inLoop buffering l σ E i topc rest o l' σ' hg hR hn hil hl hσ hb hw he ho
+  have h := (rc_all ts k hG fuel).stmt t sc inLoop buffering cv cb l σ E i topc rest o l' σ' hg hR hn hil hl hσ hb hw he ho
   let ⟨out, vars', h1, h2, h3, h4, _⟩ := h
   ⟨out, vars', h1, h2, h3, h4⟩
 
 /-- non-vacuous: guard and state relation hold for a `<%call>` with body in a loop, from the initial state -/
-example : Good (mainScope sampleCalls) false false sampleCalls = true ∧
-    RelC { Loc.init 0 with caller := [] } { St.init with frames := [[]] }
+example : Good (mainScope sampleCalls) false false true false sampleCalls = true ∧
+    RelC true { Loc.init 0 with caller := [] } { St.init with frames := [[]] }
       { vars := [], defs := [], caller := [], loops := [], nb := 1, nf := 1, mod := 0 } :=
   ⟨by decide, ⟨fun _ => rfl, ⟨[], rfl⟩, rfl, rfl, fun _ _ => by simp [Loc.init, lookup, OptRel], rfl,
-    ⟨[], rfl, NSRel.nil⟩, NSRel.nil⟩⟩
+    fun _ => ⟨[], rfl, NSRel.nil⟩, NSRel.nil⟩⟩
 
 /-- **Refinement, expressions**: evaluating a guarded expression – def calls by name (also inside concatenations
     and argument lists), `capture`, `caller.x(…)` – appends what `Spec.seval` calls "text written", yields the same
     value or exception, and leaves the caller stack, the loop stack and `nextcaller` exactly as they were. -/
 theorem def_call_refines_spec_expression_partial (ts : List (Tmpl × Option Bool)) (k : Nat) (hG : GoodAll ts)
-    (e : Expr) (inLoop inCallExpr : Bool) (hg : GoodE inLoop inCallExpr e = true)
-    (fuel : Nat) (l : Loc) (σ : St) (E : Spec.Env) (pend : Spec.SNS) (hR : RelC l σ E) (hN : NSRel σ.next pend)
+    (e : Expr) (inLoop inCallExpr cv : Bool) (hg : GoodE inLoop inCallExpr cv e = true)
+    (fuel : Nat) (l : Loc) (σ : St) (E : Spec.Env) (pend : Spec.SNS) (hR : RelC cv l σ E) (hN : NSRel σ.next pend)
     (hce : inCallExpr = false → σ.next = []) (hil : inLoop = true → E.loops ≠ []) (hl : LocOK l) (hσ : StOK σ)
     (i : Nat) (topc : Str) (rest : List (Nat × Str)) (hb : σ.bufs = (i, topc) :: rest) (r : VRes) (σ' : St)
     (he : eval (progOf ts k) fuel e l σ = (r, σ')) (hr : r ≠ .timeout) :
     ∃ out, σ'.bufs = (i, topc ++ out) :: rest ∧ σ'.frames = σ.frames ∧ σ'.loops = σ.loops ∧ σ'.next = σ.next ∧
       ∃ m0, ∀ m, m0 ≤ m → Spec.seval ⟨ts, k⟩ m e E pend σ.cnt = ⟨convV r, out, σ'.cnt⟩ :=
-  let ⟨out, h1, p, h3⟩ := (rc_all ts k hG fuel).eval e inLoop inCallExpr l σ E pend i topc rest r σ' hg hR hN hce hil hl hσ
+  let ⟨out, h1, p, h3⟩ := (rc_all ts k hG fuel).eval e inLoop inCallExpr cv l σ E pend i topc rest r σ' hg hR hN hce hil hl hσ
     hb he hr
   ⟨out, h1, p.1, p.2.1, p.2.2, h3⟩
 
-example : GoodE false false (.cat (.lit ['p']) (.call 1 [.capture 3 []])) = true := by decide
+example : GoodE false false true (.cat (.lit ['p']) (.call 1 [.capture 3 []])) = true := by decide
 
-/-- the unguarded refinement is false of the model, because it is false of mako (finding F-C05-5 / C13's quirk):
+/-- the unguarded refinement is false of the model, because it is false of mako (finding F-C05-2 / C13's quirk):
     `<% return %>` in a buffered def loses the content written before it -/
 theorem def_call_refines_spec_counterexample_return :
     GoodAll [(quirkTmpl, none)] = False ∧
@@ -123,7 +136,7 @@ theorem def_call_refines_spec_counterexample_call_expr :
     (Spec.render ⟨[(quirkCallExpr, none)], 99⟩ ⟨none, false⟩ 200).2 = "{O(B)[F]}".toList := by
   refine ⟨by decide, by decide +kernel, by decide +kernel, by decide +kernel, by decide +kernel⟩
 
-/-- … and a def nested in a `<%call>` inside a def that itself mentions `caller` (finding F-C05-8): the nested def's
+/-- … and a def nested in a `<%call>` inside a def that itself mentions `caller` (finding F-C05-3): the nested def's
     `caller` is the *enclosing* def's (the `ccall(caller)` parameter), not the one of its own call -/
 theorem def_call_refines_spec_counterexample_nested_def :
     GoodTop quirkNested = false ∧
@@ -142,7 +155,7 @@ theorem def_call_refines_spec_counterexample_nested_def :
 theorem def_writes_at_call_site_returns_empty (ts : List (Tmpl × Option Bool)) (k : Nat) (hG : GoodAll ts)
     (ps : List Name) (fl : DefFlags) (body : Tmpl) (hc : fl.cached = false) (hbf : fl.buffered = false)
     (hf : fl.filters = []) (hnd : nodupB (declNames body) = true)
-    (hg : Good (defScope body) false false body = true)
+    (hg : Good (defScope body) false false true false body = true)
     (own : Bool) (mod : Nat) (clex : NS) (vs : List Str) (l : Loc) (σ : St) (E : Spec.Env) (pend : Spec.SNS) (i : Nat)
     (topc : Str) (rest : List (Nat × Str)) (hR : RelW l σ E) (hN : NSRel σ.next pend) (hl : LocOK l) (hlex : NSOK clex)
     (hσ : StOK σ) (hb : σ.bufs = (i, topc) :: rest) (n : Nat) (v : Str) (σ' : St)
@@ -166,7 +179,7 @@ theorem def_writes_at_call_site_returns_empty (ts : List (Tmpl × Option Bool)) 
 example : ∃ σ', invoke (progOf [] 99) 50
       ⟨⟨[1], ⟨false, false, false⟩, renderCallable false noFlags (.seq (.text ['x']) (.expr (.var 1) []))⟩, [], 0⟩ [['y']]
       (Loc.init 0) St.init = (.val [], σ') ∧ σ'.bufs = [(0, ['x', 'y'])] ∧
-      Good (defScope (.seq (.text ['x']) (.expr (.var 1) []))) false false (.seq (.text ['x']) (.expr (.var 1) [])) = true :=
+      Good (defScope (.seq (.text ['x']) (.expr (.var 1) []))) false false true false (.seq (.text ['x']) (.expr (.var 1) [])) = true :=
   ⟨_, rfl, by decide, by decide⟩
 
 /-- **A buffered def returns its content (after the filters) and writes nothing.**  `fl.filters` is the def's
@@ -175,7 +188,7 @@ example : ∃ σ', invoke (progOf [] 99) 50
     and in order, to the whole text the content renders to. -/
 theorem buffered_returns_content (ts : List (Tmpl × Option Bool)) (k : Nat) (hG : GoodAll ts)
     (ps : List Name) (fl : DefFlags) (body : Tmpl) (hc : fl.cached = false) (hbf : fl.buffered = true)
-    (hnd : nodupB (declNames body) = true) (hg : Good (defScope body) false true body = true)
+    (hnd : nodupB (declNames body) = true) (hg : Good (defScope body) false true true false body = true)
     (own : Bool) (mod : Nat) (clex : NS) (vs : List Str) (l : Loc) (σ : St) (E : Spec.Env) (pend : Spec.SNS) (i : Nat)
     (topc : Str) (rest : List (Nat × Str)) (hR : RelW l σ E) (hN : NSRel σ.next pend) (hl : LocOK l) (hlex : NSOK clex)
     (hσ : StOK σ) (hb : σ.bufs = (i, topc) :: rest) (n : Nat) (v : Str) (σ' : St)
@@ -210,7 +223,7 @@ example : withBufferFilters [7] (.def_ 1 [1] flBuf1 (.text ['c'])) =
 theorem filter_applied_once_to_whole_content (ts : List (Tmpl × Option Bool)) (k : Nat) (hG : GoodAll ts)
     (ps : List Name) (fl : DefFlags) (body : Tmpl) (hc : fl.cached = false) (hbf : fl.buffered = false)
     (hf : fl.filters ≠ []) (hnd : nodupB (declNames body) = true)
-    (hg : Good (defScope body) false true body = true)
+    (hg : Good (defScope body) false true true false body = true)
     (own : Bool) (mod : Nat) (clex : NS) (vs : List Str) (l : Loc) (σ : St) (E : Spec.Env) (pend : Spec.SNS) (i : Nat)
     (topc : Str) (rest : List (Nat × Str)) (hR : RelW l σ E) (hN : NSRel σ.next pend) (hl : LocOK l) (hlex : NSOK clex)
     (hσ : StOK σ) (hb : σ.bufs = (i, topc) :: rest) (n : Nat) (v : Str) (σ' : St)
@@ -242,8 +255,8 @@ example : ∃ σ', invoke (progOf [(sampleCalls, none)] 99) 50
     only what evaluating the *arguments* wrote; the value is the text `Spec.sinvoke` reports as written by the call
     (the callable's own return value is dropped). -/
 theorem capture_returns_and_leaves_output (ts : List (Tmpl × Option Bool)) (k : Nat) (hG : GoodAll ts) (f : Name)
-    (args : List Expr) (inLoop inCallExpr : Bool) (l : Loc) (σ : St) (E : Spec.Env) (pend : Spec.SNS) (i : Nat)
-    (topc : Str) (rest : List (Nat × Str)) (hg : GoodE inLoop inCallExpr (.capture f args) = true) (hR : RelC l σ E)
+    (args : List Expr) (inLoop inCallExpr cv : Bool) (l : Loc) (σ : St) (E : Spec.Env) (pend : Spec.SNS) (i : Nat)
+    (topc : Str) (rest : List (Nat × Str)) (hg : GoodE inLoop inCallExpr cv (.capture f args) = true) (hR : RelC cv l σ E)
     (hN : NSRel σ.next pend) (hce : inCallExpr = false → σ.next = []) (hil : inLoop = true → E.loops ≠ [])
     (hl : LocOK l) (hσ : StOK σ) (hb : σ.bufs = (i, topc) :: rest) (n : Nat) (v : Str) (σ' : St)
     (he : eval (progOf ts k) n (.capture f args) l σ = (.val v, σ')) :
@@ -251,7 +264,7 @@ theorem capture_returns_and_leaves_output (ts : List (Tmpl × Option Bool)) (k :
       ∃ sf m0, Spec.resolveS ⟨ts, k⟩ E f = some sf ∧ ∀ m, m0 ≤ m → ∃ vs c1 v0,
         Spec.sargs ⟨ts, k⟩ m args E pend σ.cnt = ⟨.vals vs, oargs, c1⟩ ∧
         Spec.sinvoke ⟨ts, k⟩ m sf [] vs { E with nb := E.nb + 1 } pend c1 = ⟨.val v0, v, σ'.cnt⟩ :=
-  let ⟨oargs, h1, p, h2⟩ := capture_val ts k hG f args inLoop inCallExpr l σ E pend i topc rest hg hR hN hce hil hl hσ hb n
+  let ⟨oargs, h1, p, h2⟩ := capture_val ts k hG f args inLoop inCallExpr cv l σ E pend i topc rest hg hR hN hce hil hl hσ hb n
     v σ' he
   ⟨oargs, h1, p.1, p.2.1, p.2.2, h2⟩
 
@@ -270,7 +283,7 @@ example : ∃ σ', eval (progOf [(sampleCalls, none)] 99) 50 (.capture 3 []) (Lo
     finds the same situation. -/
 theorem caller_body_runs_in_calling_scope (ts : List (Tmpl × Option Bool)) (k : Nat) (hG : GoodAll ts)
     (args : List Expr) (inLoop : Bool) (l : Loc) (σ : St) (E : Spec.Env) (i : Nat) (topc : Str) (rest : List (Nat × Str))
-    (hg : GoodE inLoop false (.callerCall 0 args) = true) (hR : RelC l σ E) (hn : σ.next = [])
+    (hg : GoodE inLoop false true (.callerCall 0 args) = true) (hR : RelC true l σ E) (hn : σ.next = [])
     (hil : inLoop = true → E.loops ≠ []) (hl : LocOK l) (hσ : StOK σ) (hb : σ.bufs = (i, topc) :: rest)
     (bargs : List Name) (body : Tmpl) (bmod : Nat) (more : Spec.SLayer) (outer : Spec.SNS)
     (hE : E.caller = ((0, ⟨bargs, noFlags, body, .body, bmod⟩) :: more) :: outer)
